@@ -611,9 +611,9 @@ class Folder:
                 fake = ast.Call(func=ast.Attribute(value=ast.Name(id="torch", ctx=ast.Load()), attr=m, ctx=ast.Load()), args=[node.func.value] + list(node.args), keywords=list(node.keywords))
                 return self.fold(fake)
             raise Unfoldable(f"method {m}")
-        if isinstance(node, ast.Call) and isinstance(node.func, ast.Name) and node.func.id in self.ctors and not node.keywords:
+        if isinstance(node, ast.Call) and isinstance(node.func, ast.Name) and node.func.id in self.ctors and all(k.arg is not None for k in node.keywords):
             try:
-                return self.ctors[node.func.id](*[self.fold(a) for a in node.args])
+                return self.ctors[node.func.id](*[self.fold(a) for a in node.args], **{k.arg: self.fold(k.value) for k in node.keywords})
             except (TypeError, ValueError) as exc:
                 raise Unfoldable(str(exc))
         if isinstance(node, ast.Call) and isinstance(node.func, ast.Name) and node.func.id == "isinstance" and len(node.args) == 2 and isinstance(node.args[1], ast.Name) and node.args[1].id in self.ctors:
